@@ -417,13 +417,15 @@ impl VersionManager {
 
         // For levels that require synchronization, acquire version under lock
         let (version, min_version) = if self.concurrency_level.requires_synchronization() {
-            verif_point!("vs.r.lock", self as *const Self);
+            verif_lock_scope!(_chain_scope, &self.token_chain_mutex as *const _);
             let _lock = self.token_chain_mutex.lock().map_err(|_| {
                 ZiporaError::system_error("Failed to acquire token chain mutex for reader")
             })?;
 
             let current_min = self.min_version.load(Ordering::Acquire);
+            verif_point!("vs.r.locked.min", self as *const Self, current_min);
             let version = self.current_version.fetch_add(1, Ordering::AcqRel) + 1;
+            verif_point!("vs.r.locked.version", self as *const Self, version);
 
             // Count the token while its version is assigned: try_advance_min_version runs under
             // the same mutex and must never observe a version that is assigned but not yet counted
@@ -490,7 +492,7 @@ impl VersionManager {
 
         // Acquire version under lock for synchronized levels
         let (version, min_version) = if self.concurrency_level.requires_synchronization() {
-            verif_point!("vs.w.lock", self as *const Self);
+            verif_lock_scope!(_chain_scope, &self.token_chain_mutex as *const _);
             let _lock = self.token_chain_mutex.lock().map_err(|_| {
                 if claimed {
                     self.active_writers.fetch_sub(1, Ordering::Relaxed);
@@ -499,7 +501,9 @@ impl VersionManager {
             })?;
 
             let current_min = self.min_version.load(Ordering::Acquire);
+            verif_point!("vs.w.locked.min", self as *const Self, current_min);
             let version = self.current_version.fetch_add(1, Ordering::AcqRel) + 1;
+            verif_point!("vs.w.locked.version", self as *const Self, version);
 
             // Count the token while its version is assigned (see acquire_reader_token)
             if !claimed {
@@ -571,10 +575,9 @@ impl VersionManager {
     /// This is a simplified version - in a full implementation, this would
     /// track individual token versions in a linked list.
     fn try_advance_min_version(&self) {
-        verif_point!("vs.adv.check", self as *const Self);
         // Serialise with version assignment: tokens are counted under this mutex, so when both
         // counters read zero here no token with a version below current_version can exist
-        verif_point!("vs.adv.lock", self as *const Self);
+        verif_lock_scope!(_chain_scope, &self.token_chain_mutex as *const _);
         let _lock = match self.token_chain_mutex.lock() {
             Ok(lock) => lock,
             Err(_) => return,
@@ -582,7 +585,9 @@ impl VersionManager {
         if self.active_readers.load(Ordering::Relaxed) == 0
             && self.active_writers.load(Ordering::Relaxed) == 0
         {
+            verif_point!("vs.adv.locked.idle", self as *const Self);
             let current = self.current_version.load(Ordering::Acquire);
+            verif_point!("vs.adv.locked.store", self as *const Self, current);
             self.min_version.store(current, Ordering::Release);
         }
     }
